@@ -199,6 +199,31 @@ def run(ctx, report):
             parts[-1] = 'X'                              # HL04: not a valid code
             segs = segs[:i] + [d[1].join(parts)] + segs[i + 1:]
             cases.append(('bodymut', 'HL with a wrong count and a bad code map=%s' % name, docgen.encode(segs, d, '')))
+    # an element error on the BHT line (the one body segment x12n_document enters by its own branch): the set is rejected and the
+    # error itemised like any other
+    for k in range(16 if thorough else 5):
+        name = rng.choice(['837.4010.X098.A1.xml', '270.4010.X092.A1.xml', '837.5010.X222.A1.xml', '276.4010.X093.A1.xml', '278.4010.X094.A1.xml',
+                           '278.4010.X094.27.A1.xml', '834.5010.X220.A1.xml'])
+        try:
+            segs, d, _sel = confgen.document(rng, name, ('~', '*', ':'), n_st=2, p_seg=0.1, p_loop=0.2, max_segs=30)
+        except Exception:  # noqa
+            continue
+        bhts = [i for i, x in enumerate(segs) if x.startswith('BHT' + d[1])]
+        if not bhts:
+            continue
+        i = rng.choice(bhts)
+        parts = segs[i].split(d[1])
+        how = rng.choice(['date', 'time', 'long', 'trailing'])
+        if how == 'date' and len(parts) > 4:
+            parts[4] = '20041305'
+        elif how == 'time' and len(parts) > 5:
+            parts[5] = '2561'
+        elif how == 'long' and len(parts) > 3:
+            parts[3] = 'R' * 31
+        else:
+            parts.append('')
+        segs = segs[:i] + [d[1].join(parts)] + segs[i + 1:]
+        cases.append(('bodymut', 'BHT with an element fault (%s) map=%s' % (how, name), docgen.encode(segs, d, '')))
     pipecorr.run(report, ctx, rng, cases, 1, None, force=lambda m: m[0] == 'A')
     for (kind, what, text) in cases:
         v, trace, ack = run_impl(text)
